@@ -14,10 +14,14 @@ def _norm(s):
     return re.sub(r'\W+', '_', s).strip('_')
 
 
+EXTRA_WITNESS = {}
+
+
 def _witness_files(VERIF, unit):
     import glob
     d = os.path.join(VERIF, 'contracts', 'witness')
-    return sorted(set(glob.glob(os.path.join(d, unit + '.rs')) + glob.glob(os.path.join(d, unit + '.*.rs'))))
+    extra = [os.path.join(d, f) for f in EXTRA_WITNESS.get(unit, [])]
+    return sorted(set(glob.glob(os.path.join(d, unit + '.rs')) + glob.glob(os.path.join(d, unit + '.*.rs')) + extra))
 
 
 def _crate_of(path):
@@ -57,6 +61,8 @@ def run_native_test(src, BUILD, crate, wfile, unit, names, timeout=3600):
 
 
 def search(res, pc, src, BUILD, VERIF):
+    EXTRA_WITNESS.clear()
+    EXTRA_WITNESS.update(pc.get('witness_files', {}))
     by_unit = {}
     for v in res.violations:
         if v.get('witness') or v.get('back_end') == 'kani':
